@@ -407,6 +407,7 @@ func (m *Machine) assertion(c *Term, id string) {
 		return
 	case Unknown:
 		m.inconclusive(fmt.Sprintf("solver unknown on assertion %s at %s (%s)", id, site, m.solver.LastErr))
+		m.solverUnknown()
 	case Sat:
 		m.report("assert", id, site, "assertion "+id+" can fail", neg)
 	}
